@@ -206,6 +206,12 @@ func (c *fctx) whileStmt(s *ast.ForStmt, next func() string) string {
 		pre = strings.TrimSuffix(pre, "\x00")
 	}
 	c.loopBodyCheck(s.Body)
+	ast.Inspect(s.Body, func(n ast.Node) bool {
+		if fl, ok := n.(*ast.FuncLit); ok {
+			c.fail(fl.Pos(), "function literal (closure) inside a loop")
+		}
+		return true
+	})
 	if c.containsPanic(s.Body) {
 		c.fail(s.Body.Pos(), "panic inside a loop body")
 	}
@@ -652,4 +658,108 @@ func (c *fctx) ifaceParams(v *types.Var) (n, idx int) {
 		}
 	}
 	return
+}
+
+// funcLit: a function literal  func(params) results { body }  as a Gallina fun.  Go closures
+// capture variables by reference, the fun captures the current VALUES: every captured local
+// variable must therefore not be assigned after the literal (in source order), and the literal
+// must not stand inside a loop.  The body may not contain loops with fuel.
+func (c *fctx) funcLit(x *ast.FuncLit) string {
+	sig, ok := c.info.TypeOf(x).(*types.Signature)
+	if !ok {
+		c.fail(x.Pos(), "function literal")
+	}
+	if c.inLoop > 0 {
+		c.fail(x.Pos(), "function literal (closure) inside a loop")
+	}
+	if sig.Variadic() || sig.Results().Len() == 0 {
+		c.fail(x.Pos(), "function literal that is variadic or has no result")
+	}
+	if c.needsFuel(x.Body) {
+		c.fail(x.Pos(), "function literal whose body contains a loop with fuel")
+	}
+	// captured variables
+	inner := map[types.Object]bool{}
+	ast.Inspect(x, func(n ast.Node) bool {
+		if id, ok := n.(*ast.Ident); ok {
+			if o := c.info.Defs[id]; o != nil {
+				inner[o] = true
+			}
+		}
+		return true
+	})
+	captured := map[types.Object]bool{}
+	ast.Inspect(x.Body, func(n ast.Node) bool {
+		if id, ok := n.(*ast.Ident); ok {
+			if o, isVar := c.info.Uses[id].(*types.Var); isVar && !inner[o] && c.known(o) {
+				captured[o] = true
+			}
+		}
+		return true
+	})
+	ast.Inspect(c.u.decl.Body, func(n ast.Node) bool {
+		var lhs []ast.Expr
+		switch s := n.(type) {
+		case *ast.AssignStmt:
+			lhs = s.Lhs
+		case *ast.IncDecStmt:
+			lhs = []ast.Expr{s.X}
+		case *ast.ExprStmt:
+			if call, ok := s.X.(*ast.CallExpr); ok {
+				if sel, ok := call.Fun.(*ast.SelectorExpr); ok {
+					lhs = append(lhs, sel.X)
+				}
+				lhs = append(lhs, call.Args...)
+			}
+		}
+		for _, l := range lhs {
+			if o := c.rootVar(l); o != nil && captured[o] && n.Pos() > x.Pos() && !(n.Pos() >= x.Pos() && n.End() <= x.End()) {
+				c.fail(n.Pos(), "assignment to %s after it was captured by a function literal (closures capture by reference)", o.Name())
+			}
+		}
+		return true
+	})
+	// a nested translation context
+	oSig, oK, oW, oF, oTy, oRaw, oRes := c.sig, c.retK, c.retWrap, c.fuelOut, c.retTy, c.rawTy, c.resTys
+	saved := c.copyEnv()
+	defer func() {
+		c.sig, c.retK, c.retWrap, c.fuelOut, c.retTy, c.rawTy, c.resTys = oSig, oK, oW, oF, oTy, oRaw, oRes
+		c.env = saved
+	}()
+	c.sig = sig
+	c.resTys = make([]types.Type, sig.Results().Len())
+	var rts []string
+	for i := range c.resTys {
+		c.resTys[i] = sig.Results().At(i).Type()
+		rts = append(rts, c.coqTy(c.typeOf(c.resTys[i], x.Pos()), x.Pos()))
+		if n := sig.Results().At(i).Name(); n != "" && n != "_" {
+			c.fail(x.Pos(), "function literal with named results")
+		}
+	}
+	c.rawTy = strings.Join(rts, " * ")
+	c.retTy = c.rawTy
+	c.retWrap = func(r string) string { return r }
+	c.fuelOut = nil
+	c.retK = func(vals []string) string { return tuple(vals) }
+	var binders []string
+	for i := 0; i < sig.Params().Len(); i++ {
+		v := sig.Params().At(i)
+		t := c.typeOf(v.Type(), x.Pos())
+		name := v.Name()
+		if name == "" || name == "_" {
+			name = "unused"
+		}
+		pn := c.fresh(name)
+		if t.k == kRec {
+			c.writeWhole(v, c.record(t.rec, x.Pos()), pn)
+		} else {
+			c.env[envKey{v, ""}] = pn
+		}
+		binders = append(binders, fmt.Sprintf("(%s : %s)", pn, c.coqTy(t, x.Pos())))
+	}
+	body := c.stmts(x.Body.List, func() string {
+		c.fail(x.Body.Rbrace, "control reaches the end of a function literal with results")
+		return ""
+	})
+	return fmt.Sprintf("(fun %s =>\n%s)", strings.Join(binders, " "), indent(body, "  "))
 }
